@@ -184,9 +184,105 @@ fn m_len(p: &Program) -> usize {
     gen::entry_count(p)
 }
 
+/// Bases with entry counts around the 16-bit limit (optionally behind prepended data whose length the
+/// recorded offsets do not include), then append rounds that cross 65535 / 65536 entries.
+#[derive(Clone, Debug, Serialize, Deserialize, Hash)]
+pub struct Big {
+    base_entries: u32,
+    prefix_len: u32,
+    rounds: Vec<u8>,
+    by_drop: bool,
+}
+
+fn big_entry(i: u32) -> (String, Vec<u8>) {
+    (format!("e{i}"), if i % 4099 == 5 { format!("content of entry {i} ").repeat(20).into_bytes() } else { vec![] })
+}
+
+fn check_big(c: &Big) -> Result<(), String> {
+    let opt = |i: u32| zip::write::FileOptions::default().compression_method(if i % 2 == 0 { zip::CompressionMethod::Stored } else { zip::CompressionMethod::Deflated }).last_modified_time(zip::DateTime::default());
+    let mentry = |i: u32| {
+        let (name, content) = big_entry(i);
+        MEntry { name, content: Some(content), method: if i % 2 == 0 { 0 } else { 8 }, dos: (0x21, 0), mode: Some(0o100644), password: None }
+    };
+    use std::io::Write;
+    let mut cur = Cursor::new(Vec::new());
+    {
+        let mut w = std::mem::ManuallyDrop::new(ZipWriter::new(&mut cur));
+        for i in 0..c.base_entries {
+            let (n, d) = big_entry(i);
+            w.start_file(n, opt(i)).map_err(|e| format!("harness: base: {e}"))?;
+            w.write_all(&d).map_err(|e| format!("harness: base: {e}"))?;
+        }
+        w.set_comment("big base");
+        w.finish().map_err(|e| format!("harness: base: {e}"))?;
+    }
+    let mut bytes = crate::refzip::Content::Rand { seed: 4242, len: c.prefix_len }.expand();
+    bytes = genf::no_sig(bytes);
+    bytes.extend_from_slice(&cur.into_inner());
+    let mut model: Vec<MEntry> = (0..c.base_entries).map(mentry).collect();
+    let comment = b"big base".to_vec();
+    let (o, cm) = observe(&bytes, &model).map_err(|e| format!("harness: base archive {e}"))?;
+    if o != model || cm != comment {
+        return Err("harness: base archive does not read as modelled".into());
+    }
+    let mut next = c.base_entries;
+    for (ri, &k) in c.rounds.iter().enumerate() {
+        let before_len = bytes.len();
+        let mut cur = Cursor::new(bytes);
+        {
+            let w = ZipWriter::new_append(&mut cur).map_err(|e| format!("round {ri}: new_append refused a valid archive of {} entries behind {} bytes of prepended data: {e}", model.len(), c.prefix_len))?;
+            let mut w = std::mem::ManuallyDrop::new(w);
+            for _ in 0..k {
+                let (n, d) = big_entry(next);
+                w.start_file(n, opt(next)).map_err(|e| format!("round {ri}: start_file: {e}"))?;
+                w.write_all(&d).map_err(|e| format!("round {ri}: write: {e}"))?;
+                model.push(mentry(next));
+                next += 1;
+            }
+            if c.by_drop {
+                unsafe { std::mem::ManuallyDrop::drop(&mut w) };
+            } else {
+                w.finish().map_err(|e| format!("round {ri}: finish: {e}"))?;
+            }
+        }
+        let end_pos = cur.position() as usize;
+        bytes = cur.into_inner();
+        let what = format!("base of {} entries behind {} prepended bytes, after append round {ri} (+{k} entries, {} in total)", c.base_entries, c.prefix_len, model.len());
+        if end_pos < before_len {
+            // shorter rewrite: the stale tail is the listed known finding; judge the archive proper
+            bytes.truncate(end_pos);
+        }
+        verify_view(&bytes, &model, &comment, k as usize, &what)?;
+    }
+    Ok(())
+}
+
 pub fn run(ctx: &mut Ctx) {
-    ctx.rule("history = base x 0..R rounds of {new_append; 0..3 new entries of any kind/method incl. extra data, aligned, ZipCrypto; optional comment change; finish or drop}. Bases: archives from this writer (C01 programs) and from the independent builder (data descriptors, forced ZIP64 fields and end records, junk prefix, CP437 names, DOS attributes, file comments, unsupported methods, shuffled central order, gaps). After every round the crate reader and the independent (lenient) parser must see model = previous entries (name, content, method, timestamp, unix mode) followed by the new ones, and the archive comment unless replaced. Non-trivial = foreign base, or >=2 rounds with at least one non-empty round.");
+    ctx.rule("history = base x 0..R rounds of {new_append; 0..3 new entries of any kind/method incl. extra data, aligned, ZipCrypto; optional comment change; finish or drop}. Bases: archives from this writer (C01 programs) and from the independent builder (data descriptors, forced ZIP64 fields and end records, junk prefix, CP437 names, DOS attributes, file comments, unsupported methods, shuffled central order, gaps). After every round the crate reader and the independent (lenient) parser must see model = previous entries (name, content, method, timestamp, unix mode) followed by the new ones, and the archive comment unless replaced. big_bases: crate-written bases of 65534/65535 (thorough: 65533..70000) entries, bare or behind 777 prepended bytes (offsets relative to the archive start), x append rounds {[0],[1],[2,0],[1,1,1]} crossing the 16-bit entry-count limit. Non-trivial = foreign base, or >=2 rounds with at least one non-empty round.");
     ctx.assume("file comments and extra fields of existing entries are not part of the claim (the property lists order, names, contents, methods, timestamps, modes, archive comment)");
+    // entry counts around 65535/65536, with and without prepended data
+    let bases: Vec<u32> = ctx.q(vec![65534, 65535], vec![65533, 65534, 65535, 65536, 70000]);
+    let round_sets: Vec<Vec<u8>> = vec![vec![0], vec![1], vec![2, 0], vec![1, 1, 1]];
+    let prefixes = [0u32, 777];
+    let total = (bases.len() * round_sets.len() * prefixes.len()) as u64;
+    ctx.enumerate::<Big>(
+        "big_bases",
+        total,
+        &|i| {
+            let i = i as usize;
+            Big { base_entries: bases[i % bases.len()], rounds: round_sets[(i / bases.len()) % round_sets.len()].clone(), prefix_len: prefixes[i / (bases.len() * round_sets.len())], by_drop: i % 5 == 4 }
+        },
+        &|c: &Big, info: &mut Info| {
+            info.nontrivial = true;
+            info.label_if(c.prefix_len > 0, "base:prefixed");
+            info.label_if(c.base_entries as usize + c.rounds.iter().map(|&k| k as usize).sum::<usize>() > 65535, "crosses-65535-entries");
+            match catch(|| check_big(c)) {
+                Ok(Ok(())) => Verdict::Pass,
+                Ok(Err(m)) => Verdict::Fail(m),
+                Err(p) => Verdict::Fail(format!("PANIC: {p}")),
+            }
+        },
+    );
     let n = ctx.q(6000, 60000);
     let rmax = ctx.q(4usize, 8);
     ctx.explore::<History>(
